@@ -248,7 +248,7 @@ def make_strategy(spec, rng):
 
 
 class SimThread:
-    __slots__ = ("idx", "gate", "state", "blocked_on", "op", "ev", "op_steps", "ident", "body", "prio", "ready", "thread")
+    __slots__ = ("idx", "gate", "state", "blocked_on", "op", "ev", "op_steps", "ident", "body", "prio", "ready", "thread", "parked_in")
 
     # state: 0 new, 1 runnable, 2 blocked, 3 done
     def __init__(self, idx, body):
@@ -266,6 +266,7 @@ class SimThread:
         self.body = body
         self.prio = 0
         self.thread = None
+        self.parked_in = None
 
 
 class Scheduler:
@@ -287,6 +288,7 @@ class Scheduler:
         self.n_voluntary = 0
         self.n_forced = 0
         self.hot_switches = 0
+        self.same_function_overlap = 0
         self.switch_holding_lock = 0
         self.blocked_events = 0
         self.aborted = None
@@ -360,13 +362,7 @@ class Scheduler:
         if mode == 1 and self._rand() < (self._p_hot if info[1] else self._p_cold):
             c = [x for x in self.threads if x.state == 1 and x is not t]
             if c:
-                n = self.strategy.rng.choice(c)
-                self.n_voluntary += 1
-                if info[1]:
-                    self.hot_switches += 1
-                if self.locks_held:
-                    self.switch_holding_lock += 1
-                self._switch(t, n)
+                self._voluntary(t, self.strategy.rng.choice(c), info)
         return self._local_tracer
 
     def _setup_fast_path(self):
@@ -399,12 +395,27 @@ class Scheduler:
             self.on_point(t, info, lineno)
         n = self.strategy.decide(self, t, info[1])
         if n is not None:
-            self.n_voluntary += 1
-            if info[1]:
-                self.hot_switches += 1
-            if self.locks_held:
-                self.switch_holding_lock += 1
-            self._switch(t, n)
+            self._voluntary(t, n, info)
+
+    def _voluntary(self, t, n, info):
+        self.n_voluntary += 1
+        if info[1]:
+            self.hot_switches += 1
+            if info[2] != "<lock>":
+                # probe: is another live thread parked inside the same function of an inventory file?
+                f = info[0]
+                for x in self.threads:
+                    if x is not t and x.state != 3 and x.parked_in == f:
+                        self.same_function_overlap += 1
+                        break
+                t.parked_in = f
+            else:
+                t.parked_in = None
+        else:
+            t.parked_in = None
+        if self.locks_held:
+            self.switch_holding_lock += 1
+        self._switch(t, n)
 
     _LOCK_INFO = (0xFFFFF, True, "<lock>")
 
@@ -515,15 +526,31 @@ class Scheduler:
         return None
 
     def _mon_line(self, code, lineno):
+        # hot path: one call per executed line of repository code
         info = self.codes.get(code)
         if info is None:
             info = self._classify(code)
         if info is False:
             return sys.monitoring.DISABLE
-        if self.running:
-            t = self.current
-            if t is not None and t.ident == _get_ident():
-                self._point(t, info, lineno)
+        if not self.running:
+            return None
+        t = self.current
+        if t is None or t.ident != _get_ident():
+            return None
+        mode = self._mode
+        if mode == 2:
+            self._point(t, info, lineno)
+            return None
+        steps = self.steps = self.steps + 1
+        t.ev += 1
+        t.op_steps += 1
+        self.digest = ((self.digest ^ ((t.idx << 44) | (info[0] << 20) | lineno)) * 1099511628211) & M64
+        if steps > self.max_steps:
+            self._abort("step-cap", t)
+        if mode == 1 and self._rand() < (self._p_hot if info[1] else self._p_cold):
+            c = [x for x in self.threads if x.state == 1 and x is not t]
+            if c:
+                self._voluntary(t, self.strategy.rng.choice(c), info)
         return None
 
     def _mon_install(self):
@@ -603,6 +630,7 @@ class Scheduler:
             "forced": self.n_forced,
             "hot_switches": self.hot_switches,
             "switch_holding_lock": self.switch_holding_lock,
+            "same_function_overlap": self.same_function_overlap,
             "blocked_events": self.blocked_events,
             "aborted": self.aborted,
         }
